@@ -310,11 +310,21 @@ def c02_6(ctx):
             ctx.check(len(inf) >= 2 and all(sym.entails(e.cond, ("not", ("op", o))) for o in inf), "add-infinity-before-unpack", ctx.where(a, e.node), "Curve.add uses coordinates on a path where an operand may be infinity")
 
 
+from sa.refguard import guarded as _guarded
+
+
+def _c02_resolver(ctx, fi):
+    names = {"pycoin.ecdsa.Generator.Generator.__mul__": "gn_mul", "pycoin.ecdsa.Generator.Generator.__init__": "gn_init"}
+    if fi.qualname in names:
+        return _ref(), names[fi.qualname], INTS
+    return None
+
+
 OBLIGATIONS = [
     Ob("C02.1", "every returned point is built through the on-curve-checking constructor (or is a parameter / infinity)", c02_1, floor=20, engines="SYM,CG"),
     Ob("C02.2", "Curve.add decides P = Q / P = -Q modulo p; slopes; identity cases", c02_2, floor=5, engines="SYM", breaks_if="points with unreduced coordinates (x, -y), (x, 2p - y)"),
     Ob("C02.3", "all multiply implementations reduce the scalar unconditionally before the zero / infinity test", c02_3, floor=8, engines="SIB,SYM", breaks_if="scalars n, -n, 2n; blinded scalars >= 2^256"),
-    Ob("C02.4", "blinding offsets cancel (linear form of the fixed-base scalars)", c02_4, floor=4, engines="LIN,SYM"),
+    Ob("C02.4", "blinding offsets cancel (linear form of the fixed-base scalars)", _guarded(c02_4, _c02_resolver), floor=4, engines="LIN,SYM"),
     Ob("C02.5", "square root exponent (p+1)/4; points_for_x returns the even root first", c02_5, floor=4, engines="SYM"),
     Ob("C02.6", "infinity is tested before any coordinate arithmetic (negation, subtraction, addition)", c02_6, floor=5, engines="SYM", breaks_if="-infinity, P - infinity"),
 ]
